@@ -2,7 +2,7 @@
 # build.sh <outdir> [variant] : compile ROOT-Sim/core from /repo's current working tree with the
 # verification guard ON and link the harness programs.  variant: plain | asan
 set -e
-OUT=$1; VARIANT=${2:-plain}
+OUT=$1; VARIANT=${2:-plain}; EXTRA=${3:-}
 REPO=${VERIF_REPO:-/repo}
 HERE=$(cd "$(dirname "$0")/.." && pwd)
 mkdir -p "$OUT/obj"
@@ -34,4 +34,22 @@ for d in termdrv; do
     $CC $LDX -o "$OUT/$d" $(ls "$OUT"/obj/*.o | grep -v '/h_\|/d_') "$OUT/obj/d_$d.o" -lm -lpthread
   fi
 done
+if [ -f orderdrv.c ]; then
+  $CC $CFLAGS -c orderdrv.c -o "$OUT/obj/d_orderdrv.o"
+  $CC $LDX -o "$OUT/orderdrv" $(ls "$OUT"/obj/*.o | grep -v '/h_\|/d_\|datatypes_msg_queue') "$OUT/obj/d_orderdrv.o" -lm -lpthread
+fi
+if [ -f partdrv.c ]; then
+  $CC $CFLAGS -c partdrv.c -o "$OUT/obj/d_partdrv.o"
+  $CC $LDX -o "$OUT/partdrv" $(ls "$OUT"/obj/*.o | grep -v '/h_\|/d_\|lp_lp.o') "$OUT/obj/d_partdrv.o" -lm -lpthread
+fi
+if [ -f ckptdrv.c ]; then
+  # the allocator rebuilt with small arena constants (guarded override in mm/buddy/buddy.h)
+  SM="-DROOTSIM_VERIF_B_TOTAL_EXP=8U -DROOTSIM_VERIF_B_BLOCK_EXP=4U"
+  mkdir -p "$OUT/objs"
+  for f in mm/buddy/buddy.c mm/buddy/ckpt.c mm/buddy/multi.c; do
+    $CC $CFLAGS $SM -c "$REPO/src/$f" -o "$OUT/objs/$(basename $f .c).o"
+  done
+  $CC $CFLAGS $SM -c ckptdrv.c -o "$OUT/objs/ckptdrv.o"
+  $CC $LDX -o "$OUT/ckptdrv" $(ls "$OUT"/obj/*.o | grep -v '/h_\|/d_\|mm_buddy_') "$OUT"/objs/*.o -Wl,--wrap=malloc,--wrap=free -lm -lpthread
+fi
 echo "built $OUT/twh ($VARIANT)"
